@@ -16,6 +16,13 @@ def groups(n, seed):
             # objective NaN at some (rejected) trial points: the displayed row really evaluates there
             ps = ("logdomain", int(rng.integers(0, 2 ** 31)), int(rng.integers(1, 4)), i % 8 == 1)
             pk["lamb_init"] = float(10.0 ** rng.uniform(-3, -1))
+        if i % 4 == 2:
+            # iterative solver in single precision: the condition estimator's own solves may fail (must stay 'no estimate')
+            from pygradflow.params import LinearSolverType, Precision, StepSolverType
+            ps = ("repo", ["hs71", "hs71c", "tame"][(i // 4) % 3])
+            pk.update(linear_solver_type=LinearSolverType.GMRES, precision=Precision.Single,
+                      step_solver_type=[StepSolverType.Standard, StepSolverType.Asymmetric, StepSolverType.Extended][(i // 4) % 3],
+                      iteration_limit=40)
         base = dict(pk, display_interval=1e9, collect_path=False, report_rcond=False)
         runs = [{"prob": ps, "params": base, "run": "A", "twin": "C09", "record_callback": False, "loglevel": "WARNING"}]
         variants = [
@@ -27,6 +34,8 @@ def groups(n, seed):
             dict(params=dict(base, display_interval=0.0, report_rcond=True), loglevel="DEBUG", observers=2),
         ]
         pick = [variants[(i + k) % len(variants)] for k in range(3)]
+        if i % 4 == 2:
+            pick = [variants[2], variants[4], variants[0]]     # the two report_rcond variants first
         for rn, v in zip(("B", "C", "D"), pick):
             runs.append({"prob": ps, "params": v["params"], "run": rn, "twin": "C09", "loglevel": v["loglevel"],
                          "observers": v["observers"], "clock": v.get("clock")})
